@@ -362,7 +362,7 @@ func (c17) Gen(rng *rand.Rand, tier string, i int) *sim.Scenario {
 				}
 				seen[h.From] = true
 				a := mustParse(h.From)
-				sc.DNS = append(sc.DNS, sim.DNSPlan{Addr: dnsKey(a), Script: []string{pick(rng, "names:1", "names:2", "names:1", "empty", dnsErr(rng), "slow:30000:1")}})
+				sc.DNS = append(sc.DNS, sim.DNSPlan{Addr: dnsKey(a), Script: []string{pick(rng, "names:1", "names:2", "names:1", "dupnames:2", "empty", dnsErr(rng), "slow:30000:1")}})
 			}
 		}
 		t := mustParse(bareTarget(sc.Calls[0].Target))
